@@ -22,7 +22,7 @@ func (c *Ctx) listWriterDiscipline() {
 			return cc.Method.Name() == name && engine.IsNamed(cc.Value.Type(), "imap", "parListWriter")
 		}
 		sc := cc.StaticCallee()
-		if sc == nil || sc.Name() != name {
+		if sc == nil || engine.ShortName(sc) != name {
 			return false
 		}
 		rn := engine.RecvNamed(sc)
@@ -69,7 +69,7 @@ func (c *Ctx) listWriterDiscipline() {
 				}
 			case *ssa.Call:
 				if sc := t.Call.StaticCallee(); sc != nil && engine.PkgPathOf(sc) == "strconv" {
-					switch sc.Name() {
+					switch engine.ShortName(sc) {
 					case "Quote", "Itoa", "FormatInt", "FormatUint":
 						return true
 					}
@@ -131,10 +131,10 @@ func (c *Ctx) listWriterDiscipline() {
 	for _, f := range c.funcsInPkg("imap") {
 		for _, cs := range engine.Calls(f) {
 			sc := cs.Common().StaticCallee()
-			if sc == nil || (sc.Name() != "newChildList" && sc.Name() != "newParamListWithGroup") || cs.Instr.Parent() != f {
+			if sc == nil || (engine.ShortName(sc) != "newChildList" && engine.ShortName(sc) != "newParamListWithGroup") || cs.Instr.Parent() != f {
 				continue
 			}
-			if f.Name() == "newChildList" {
+			if engine.ShortName(f) == "newChildList" {
 				continue // forwards the opened list to its caller
 			}
 			call, ok := cs.Instr.(*ssa.Call)
@@ -151,7 +151,7 @@ func (c *Ctx) listWriterDiscipline() {
 			}
 			cut := map[ssa.Instruction]bool{}
 			for _, cs2 := range engine.Calls(f) {
-				if fin := cs2.Common().StaticCallee(); fin == nil || fin.Name() != "finish" || len(cs2.Common().Args) == 0 {
+				if fin := cs2.Common().StaticCallee(); fin == nil || engine.ShortName(fin) != "finish" || len(cs2.Common().Args) == 0 {
 					continue
 				}
 				recv := cs2.Common().Args[0]
@@ -173,7 +173,7 @@ func (c *Ctx) listWriterDiscipline() {
 					bad = P.Pos(ret.Pos())
 				}
 			}
-			R.Check(len(cut) > 0 && bad == "", "R12.5", fmtf("%s|%s", c.name(f), sc.Name()), P.Pos(cs.Pos()), "closed with finish on every success path", "a list opened here reaches a successful return ("+bad+") without finish: the '(' is never matched by ')' and the produced ENVELOPE/BODYSTRUCTURE is not a well-formed list")
+			R.Check(len(cut) > 0 && bad == "", "R12.5", fmtf("%s|%s", c.name(f), engine.ShortName(sc)), P.Pos(cs.Pos()), "closed with finish on every success path", "a list opened here reaches a successful return ("+bad+") without finish: the '(' is never matched by ')' and the produced ENVELOPE/BODYSTRUCTURE is not a well-formed list")
 		}
 	}
 	R.Min("R12.5", "list openings", np, 6)
